@@ -63,7 +63,35 @@ def _ro(d):
         return guarded(_reraise)
 
 
+def contracts_part(ctx):
+    """P: the ordering helpers every exporter sorts its emitted lists with (_natural_sort_key, _name_sorted,
+    _net_sorted): the sort key of an item ends with its (mapped) name, so items with different names never tie
+    and the order `sorted` returns does not depend on the iteration order of the set handed in (lemma)."""
+    import time
+    import z3
+    import contracts.sortkeys as SK
+    from pyvc.contract import REGISTRY
+    from pyvc import run as prun
+    cs = [c for c in REGISTRY.values() if c.__class__.__module__ == 'contracts.sortkeys']
+    prun.run_contracts(ctx, cs, 'contracts.sortkeys')
+    for vc in SK.order_is_schedule_independent():
+        s = z3.Solver()
+        s.set('timeout', 20000)
+        s.add(*vc.pc)
+        s.add(z3.Not(vc.goal))
+        t0 = time.time()
+        r = s.check()
+        ctx.obligation('C20.' + vc.name, 'contracts of importexport._natural_sort_key / _name_sorted / _net_sorted',
+                       'proved' if r == z3.unsat else 'undecided', 'z3', time.time() - t0)
+    ctx.assume('ordering helpers (contracts/sortkeys.py): re.split is an external function returning an odd number '
+               '(1, 3, 5) of pieces with arbitrary isdigit(); int(piece) is an arbitrary integer; `sorted` is the '
+               'CPython builtin (returns the ascending arrangement of its argument under the key); that the chunk '
+               'lists of two names are always comparable (text pieces and digit runs alternate) is a property of '
+               're.split and is checked on concrete names only')
+
+
 def run(ctx):
+    contracts_part(ctx)
     q = ctx.tier == 'quick'
     variants = ['tie', 'case_tie', 'pad_tie', 'blif_import', 'sani', 'memen', 'memen_samedata', 'regs_tie', 'outs_tie', 'mems_same_name', 'rom_clones',
                 'mems_init', 'regs_same_next', 'cond_fsm']
